@@ -154,6 +154,9 @@ def fit_cases(tier, seed):
                             cases.append(dict(base, name=nm, feat=ft))
                         if seed != 0 and noise is None and dimgiven == "dimension":
                             cases.append(dict(base, name=kind, feat="plain", seed=int(seed)))
+                        # the same object calibrated, used (trajectories computed), then calibrated again
+                        if kind != "mixture_logistic" and (thorough or (dimgiven == "dimension" and noise in (None, "gaussian-scalar"))):
+                            cases.append(dict(base, name=kind, feat="plain", pre="used"))
                         # parameters updated in place after the fit (full vector / some parameters only)
                         if kind != "mixture_logistic" and (thorough or (dimgiven == "dimension" and noise in (None, "gaussian-scalar"))):
                             for update in UPDATES:
@@ -681,6 +684,18 @@ def build_first(case, judge):
             stage = "fit"
             df = fit_frame(case)
             data = Data.from_dataframe(df, "joint") if kind == "joint" else Data.from_dataframe(df)
+            if case.get("pre") == "used":
+                # the object already has a history: a first short calibration, then it is *used* (trajectories of
+                # individuals and of the average are computed, as estimate / the plots do), then the calibration goes on
+                stage = "first fit"
+                model.fit(data, "mcmc_saem", seed=case["seed"] + 1, **dict(FIT_KW, n_iter=3, n_burn_in_iter=1))
+                stage = "use between two fits"
+                ns_obj = getattr(model, "source_dimension", 0) or 0
+                ips, ages = individuals(float(flat(model.parameters["tau_mean"])[0]), ns_obj)
+                trajectories(model, ips, ages)
+                if hasattr(model, "compute_mean_traj"):
+                    model.compute_mean_traj(torch.tensor([ages], dtype=torch.float32))
+                stage = "second fit"
             model.fit(data, "mcmc_saem", seed=case["seed"], **FIT_KW)
             return model, None
     except CaseTimeout:
@@ -818,7 +833,8 @@ def run_case(case, tmpdir):
             if opt == "default":
                 check_file_vs_object(model, doc1, case, judge, site_s)
                 check_against_file(model, doc1, case, judge, "updated model" if case.get("update") else
-                                   "fitted model" if case["src"] == "fit" else "loaded model", ips, ages, trajs1)
+                                   ("fitted model (used between two fits)" if case.get("pre") else "fitted model")
+                                   if case["src"] == "fit" else "loaded model", ips, ages, trajs1)
             elif "mixing_matrix" in doc1.get("parameters", {}):
                 judge.add(site_s, "mixing_matrix written although not asked", feat, "parameters/mixing_matrix present")
             # ---- reload
